@@ -370,6 +370,10 @@ func desugarImplies(s string) string {
 	if idx < 0 {
 		return t
 	}
+	if ts := strings.TrimLeft(t, " \t"); strings.HasPrefix(ts, "return ") {
+		// body of a function literal: `return a ==> b`
+		return " return " + desugarImplies(strings.TrimPrefix(ts, "return "))
+	}
 	lhs := strings.TrimSpace(t[:idx])
 	rhs := strings.TrimSpace(desugarImplies(t[idx+3:]))
 	return "(!(" + lhs + ") || (" + rhs + "))"
